@@ -124,7 +124,7 @@ func (c08) Gen(seed uint64, run int, tier string) *core.Case {
 			sort.Ints(op.Parts)
 			op.Parts = uniqInts(op.Parts)
 			if r.IntN(2) == 0 {
-				op.Bad = []string{"wrong-etag", "missing-part", "descending", "small-middle", "empty", "wrong-size-header"}[r.IntN(6)]
+				op.Bad = []string{"wrong-etag", "missing-part", "descending", "small-middle", "empty", "wrong-size-header", "repeated", "repeated"}[r.IntN(8)]
 			}
 		case x < 88:
 			op.Kind = "abort"
@@ -564,6 +564,21 @@ func (c08) Exec(c *core.Case) (out *core.Outcome) {
 			if op.Bad == "empty" {
 				nums = nil
 				valid = false
+			}
+			if op.Bad == "repeated" && len(nums) >= 1 {
+				// one part number listed twice in a row (a part of at least the minimum part size if there is
+				// one, so that nothing but the order check stands in the way): part numbers must ascend strictly
+				k := 0
+				for j, n := range nums {
+					if mp := u.Parts[n]; mp != nil && len(mp.Data) >= fiveMiB {
+						k = j
+						break
+					}
+				}
+				nums = append(nums[:k+1], nums[k:]...)
+				valid = false
+			} else if op.Bad == "repeated" {
+				why = ""
 			}
 			for j, n := range nums {
 				mp := u.Parts[n]
